@@ -10,7 +10,7 @@
     model's observations the same way. *)
 From AGH Require Import Base.Run.
 From AGH Require Export Model.Dhcp4 Model.Dhcp4Admin.
-From AGH Require Model.Dhcp4Bitset.
+From AGH Require Model.Dhcp4Bitset Model.Dhcp4Expiry.
 Local Open Scope N_scope.
 
 (** Encoded operations (all addresses and names encoded as above). *)
@@ -54,7 +54,12 @@ Inductive stepobs := St (dt : Z) (busy : list N) (o : eop) (ob : obs).
     answer of the real isSet. *)
 Inductive bitop := BSet (n : N) (v : bool) | BGet (n : N) (seen : bool).
 
+(** [ExpCase zone e wall label back]: in a process whose time zone is [zone]
+    seconds east of UTC the real fromLease wrote the expiry [e] (ns) as the
+    wall-clock reading [wall] (seconds, read as if UTC) labelled with the
+    offset [label]; the real toLease read [back] (ns). *)
 Inductive case :=
+  | ExpCase (zone e wall label back : Z)
   | BitCase (is_nil : bool) (ops : list bitop)  (* a nil *bitSet / newBitSet() *)
   | Case (c : conf) (fresh : bool) (names : list bytes) (nprobe : nat) (t0 : Z) (steps : list stepobs)
   | ConfCase (start end_ gw mask : N) (accepted : bool) (sub_lo sub_hi : N).
@@ -208,6 +213,12 @@ Fixpoint bits_first_bad (i : N) (s : Dhcp4Bitset.bitset) (a : N -> bool) (is_nil
 
 Definition explain (k : case) :=
   match k with
+  | ExpCase zone e wall label back =>
+      let '(w, l) := Dhcp4Expiry.write_expiry zone e in
+      if (w =? wall)%Z && (l =? label)%Z && (Dhcp4Expiry.read_expiry (wall, label) =? back)%Z
+         && (back =? trunc_s e)%Z
+      then None
+      else Some (0, RNone, ([], [], [], [], [], []), false)
   | BitCase nl ops =>
       match bits_first_bad 0 (if nl then None else Dhcp4Bitset.new_bitset) (fun _ => false) nl ops with
       | None => None
